@@ -111,10 +111,6 @@ def gen_shape(rng, entry: str) -> dict:
         sh["generic"] = "typevar"
         sh["target"] = rng.choice(["subclass", "alias"]) if entry == "codec_dc" else "subclass"
     sh["position"] = rng.choices(["top", "self_opt", "self_list", "inner"], weights=[50, 18, 12, 20])[0]
-    if sh["target"] == "alias" and sh["position"] in ("self_opt", "self_list"):
-        # excluded (not a C10 matter, fails without any customization): a codec of a specialised generic alias
-        # Box[int] whose class has a Self-typed field raises AttributeError / InvalidFieldValue on /repo
-        sh["position"] = "top"
     sh["config_at"] = rng.choice(["own", "own", "parent"]) if (sh["decl"] != "own" or sh["generic"] == "typevar") else "own"
     sh["config_style"] = rng.choice(["base", "base", "plain"])
     sh["decoy"] = rng.choice(["f1", "f2", "both"]) if sh["decl"].startswith("redeclare") else "none"
@@ -1063,6 +1059,19 @@ def generate_cases(ctx: vlib.Ctx) -> list[dict]:
     return cases
 
 
+def self_generic_codec_defect(case: dict, d: str, obs: dict) -> bool:
+    """Known finding C10/self-in-specialised-generic-codec (independent of any customization): codec of a
+    specialised generic alias Box[X] whose class has a Self-typed field; the Self call names an unspecialised
+    method that is never created."""
+    sh = {**DEFAULT_SHAPE, **case.get("shape", {})}
+    if not (case["entry"] == "codec_dc" and sh["generic"] == "typevar" and sh["target"] == "alias"
+            and sh["position"] in ("self_opt", "self_list") and "error" in obs):
+        return False
+    e = obs["error"]
+    return (d == "ser" and e.startswith("AttributeError") and "__mashumaro_to_dict" in e) or \
+           (d == "de" and e.startswith("InvalidFieldValue") and ('"nxt"' in e or '"kids"' in e))
+
+
 def classify(case: dict, d: str, obs: dict):
     """None if the observation is what the property demands, else (what, signature)."""
     exp = oracle_expected(case, d)
@@ -1154,6 +1163,12 @@ def run(ctx: vlib.Ctx):
             else:
                 obs = res[d]
             ctx.count(key, nontrivial=bool(case["slots"]))
+            if self_generic_codec_defect(case, d, obs):
+                ctx.fail(f"codec of a specialised generic alias with a Self field ({d}): {obs['error'][:120]}",
+                         {"entry": case["entry"], "dir": d, "case": case, "source": build_source(case),
+                          "observed": obs, "expected": oracle_expected(case, d)},
+                         {"kind": "self-in-specialised-generic-codec"})
+                continue          # the model has no such failure; nothing to compare
             w = oracle_winner(case, d)
             ctx.hist("winner", w or "builtin")
             coq_cases.append(coq_case(case, d, obs))
